@@ -10,7 +10,7 @@ def delimiter(rng, sub, env_kw=None):
     if r == 2:
         term = rng.choice([b"\x00", b"\xff", b"\x00\x00", b"\x01\x02"])
         return A.NullTerminated(sub, term=term, include=rng.random() < 0.4, consume=rng.random() < 0.6, require=rng.random() < 0.7)
-    if r == 3: return A.NullStripped(sub, pad=rng.choice([b"\x00", b"\xff", b"\x00\x00"]))
+    if r == 3: return A.NullStripped(sub, pad=rng.choice([b"\x00", b"\xff", b"\x00\x00", b"\x00\x01", b"\x01\x00\x00", b"\x00\x00\x00"]))
     if r == 4: return A.OffsettedEnd(rng.choice([0, -1, -2]), sub)
     if r == 5: return A.ProcessXor(rng.choice([0, 1, 0xff, b"\x01\x80", b"\x00"]), sub)
     if r == 6: return A.Prefixed(A.Alias("Byte"), sub)
